@@ -564,8 +564,12 @@ def _pyvc_raise():
 class FnObligation(Obligation):
     """an obligation decided by a custom procedure returning a Result-like dict"""
 
-    def __init__(self, name, fn, functions=()):
+    def __init__(self, name, fn, functions=(), native_fallback=None):
+        """native_fallback() -> witness or None: a bounded native search run only when the symbolic procedure meets a
+        construct it cannot model (Unsupported).  A witness makes the obligation *violated* (replayed input on the real
+        code); no witness leaves it undecided — an unmodelled construct is never reported as a violation by itself."""
         self.name, self.fn, self.functions = name, fn, tuple(functions)
+        self.native_fallback = native_fallback
 
     def run(self, seed=0):
         t0 = time.time()
@@ -584,6 +588,20 @@ class FnObligation(Obligation):
         except (JI.Unsupported, _pyvc_unsupported()) as e:
             res["status"] = "undecided"
             res["detail"] = f"unsupported: {e}"
+            if self.native_fallback is not None:
+                try:
+                    wit = self.native_fallback()
+                except Exception as e2:
+                    wit = None
+                    res["detail"] += f" (native fallback failed: {e2!r})"[:300]
+                if wit:
+                    res["status"] = "violated"
+                    res["failure"] = "native"
+                    res["backend"] = "native(bounded)"
+                    res["detail"] = (f"not decidable symbolically ({e}); the bounded native monitor found a failing input: "
+                                     + (wit[0] if isinstance(wit, (list, tuple)) else str(wit))[:600])
+                    res["replay"] = {"native_disagrees": True, "native": wit, "expected": "the contract's postcondition",
+                                     "reason_symbolic_engine_stopped": str(e)}
         except _pyvc_raise() as e:
             # the code under contract raises on a path the contract's precondition allows
             res["status"] = "violated"
